@@ -367,8 +367,10 @@ void pseudo_sequence()
   using wrapped = std::minstd_rand;
   using fg = fcppt::random::generator::basic_pseudo<wrapped>;
   static_assert(std::is_same_v<fg, fcppt::random::generator::minstd_rand>);
-  static_assert(fg::min() == wrapped::min() && fg::max() == wrapped::max());
   static_assert(std::is_same_v<fg::result_type, wrapped::result_type>);
+  // a run-time assertion on purpose: a wrong range must be reported as a violation of the property, not as a kernel that
+  // no longer compiles (the standard distributions read min()/max() of the generator they are given)
+  verif_assert(fg::min() == wrapped::min() && fg::max() == wrapped::max(), "basic_pseudo reports the output range of the wrapped engine");
   wrapped::result_type const seed{static_cast<wrapped::result_type>(verif_u64("seed"))};
   fg g{fg::seed{seed}};
   wrapped r{seed};
